@@ -32,14 +32,19 @@ def s1f14_body(ack, from_host):
 def run_trace(job):
     tid, role, mode, inputs, seed, policy = job[:6]
     instant = job[6] if len(job) > 6 else False
+    deny = job[7] if len(job) > 7 else False
     hsmsrun.quiet_logging()
     simrt.install()
-    rec = {"id": tid, "role": role, "mode": mode, "steps": [], "seed": seed, "policy": policy}
+    rec = {"id": tid, "role": role, "mode": mode, "steps": [], "seed": seed, "policy": policy, "deny": deny}
 
     def main(s):
         import secsgem.common
         dt = secsgem.common.DeviceType.EQUIPMENT if role.startswith("equipment") else secsgem.common.DeviceType.HOST
         extra = {"initial_control_state": "ONLINE"} if role == "equipment_online" else {}
+        import secsgem.gem
+        if deny:
+            base_cls = secsgem.gem.GemEquipmentHandler if role.startswith("equipment") else secsgem.gem.GemHostHandler
+            extra["handler_cls"] = type("Denying", (base_cls,), {"on_commack_requested": lambda self: 1})
         ep = hsmsrun.Ep(mode=mode, kind="equipment" if role.startswith("equipment") else "host", device_type=dt,
                         settings={"establish_communication_timeout": D}, **extra)
         h = ep.handler
@@ -259,7 +264,7 @@ def run(ctx: Ctx):
     tlc.require_ok(res, "E30Comm")
     ctx.add_tlc(res, "E30 establish-communications monitor: all histories, invariants + RetryAfterDelay")
     edges = res.tagged("TR")
-    g = graph.Graph(edges, inits=[{"cm": "DISABLED", "link": "down", "en": False}])
+    g = graph.Graph(edges, inits=[{"cm": "DISABLED", "link": "down", "en": False, "deny": d} for d in (False, True)])
     if len(edges) < 30:
         raise Machinery(f"monitor graph too small: {len(edges)}")
     rng = random.Random(ctx.seed + 7)
@@ -273,7 +278,7 @@ def run(ctx: Ctx):
                     continue
                 tid += 1
                 pol = "fifo" if pi < len(paths) // 2 else "random"
-                jobs.append((tid, role, mode, [e["inp"] for e in p], rng.randrange(1 << 30), pol, pi % 2 == 1))
+                jobs.append((tid, role, mode, [e["inp"] for e in p], rng.randrange(1 << 30), pol, pi % 2 == 1, bool(p[0]["from"].get("deny"))))
     # refused attempts answered at once, several times in a row, under schedules with late-resuming helper threads
     refuse = [{"k": "Enable"}, {"k": "LinkUp"}] + [{"k": "S1F14", "ack": 1}, {"k": "Timer"}] * 3 + [{"k": "S1F14", "ack": 0}, {"k": "Other", "w": True}]
     silent = [{"k": "Enable"}, {"k": "LinkUp"}, {"k": "Timer"}, {"k": "Timer"}, {"k": "S1F14", "ack": 1}, {"k": "Timer"}, {"k": "S1F14", "ack": 0}]
@@ -296,7 +301,8 @@ def run(ctx: Ctx):
                                f"(communication state {t['link_loss_stuck']['cm']}): {t['link_loss_stuck']['blocked'][:2]}"})
     traces = [t for t in traces if t["outcome"] == "done" and not t.get("errors") and not t.get("link_loss_stuck")]
     f = wd / "traces.json"
-    f.write_text(json.dumps([{"id": t["id"], "steps": [{"inp": st["inp"], "obs": st["obs"]} for st in t["steps"]]} for t in traces]))
+    f.write_text(json.dumps([{"id": t["id"], "deny": bool(t.get("deny")), "steps": [{"inp": st["inp"], "obs": st["obs"]} for st in t["steps"]]}
+                             for t in traces]))
     rj = tlc.run("E30CommJudge", cfg_text="", workdir=wd, workers=1, env={"TRACE_FILE": str(f)}, what="judge", coverage=False,
                  timeout=1800)
     tlc.require_ok(rj, "E30CommJudge")
@@ -317,7 +323,7 @@ def run(ctx: Ctx):
             st = t["steps"][v["at"] - 1]
             prev = t["steps"][v["at"] - 2]["obs"]["cm"] if v["at"] > 1 else "DISABLED"
             ctx.violation({"check": "e30comm", "clause": v["clause"], "input": st["inp"]["k"], "ack": st["inp"].get("ack"),
-                           "state_before": prev, "role": t["role"], "mode": t["mode"], "observed": st["obs"],
+                           "state_before": prev, "role": t["role"], "mode": t["mode"], "application_denies": bool(t.get("deny")), "observed": st["obs"],
                            "allowed": v["allowed"], "inputs": [s["inp"] for s in t["steps"][: v["at"]]],
                            "sched": [t["seed"], t["policy"]],
                            "what": f"{t['role']}: input {json.dumps(st['inp'])} in {prev}: observed "
